@@ -55,7 +55,10 @@ Proof.
   - intros T H d p. inversion H. reflexivity.
   - intros k T H d p. destruct k; inversion H; reflexivity.
   - intros T H. discriminate.
-  - intros fam a IH T H d p. simpl in H. simpl. destruct (pol fam); [apply IH; assumption | discriminate].
+  - intros fam a IH T H d p.
+    assert (E : denote (AAlt fam a) = if pol fam then denote a else None) by reflexivity. rewrite E in H.
+    assert (E2 : parse_ann foi (AAlt fam a) d p = if pol fam then parse_ann foi a d p else Err Mismatch p) by reflexivity.
+    rewrite E2. revert H. destruct (pol fam); intro H; [apply IH; assumption | discriminate H].
   - intros a IH T H d p. simpl in H. destruct (denote a) as [t|]; [|discriminate]. inversion H; subst.
     simpl. destruct d; try reflexivity; apply IH; reflexivity.
   - intros ms _ hn T H. discriminate.
@@ -224,7 +227,8 @@ Proof.
     try (intros Hd b Hs; inversion Hs; subst; assumption).
   - intros k Hd b Hs. inversion Hs; subst. assumption.
   - intros fam a IH Hd b Hs. inversion Hs; subst; [assumption|]. apply IH; [|assumption].
-    simpl in Hd. destruct (pol fam); [assumption | contradiction].
+    assert (E : denote (AAlt fam a) = if pol fam then denote a else None) by reflexivity. rewrite E in Hd.
+    revert Hd. destruct (pol fam); intro Hd; [assumption | contradiction].
   - intros a IH Hd b Hs. inversion Hs; subst; [assumption|]. apply IH; [|assumption].
     simpl in Hd. apply omap_none in Hd. assumption.
   - intros ms _ hn Hd. simpl in Hd. contradiction.
